@@ -173,12 +173,19 @@ Theorem sync_fork_catches_up s :
   sy_node s = n0 -> sy_queue s = [] -> sy_buf s = [] ->
   (sy_diff s < top_cd peer \/ (sy_diff s = top_cd peer /\ sy_height s = top_h peer)) ->
   exists bound, forall now, (forall b, In b (tl (shared ++ theirs)) -> prevalidate_block cfg team_key b now = Ok tt) ->
+    (* the answers of every round arrive in the order sent *)
     (forall k, (bound <= k)%nat ->
        let s' := srounds cfg genesis_addr team_key peer now k s in
        sy_node s' = apply_ext' n0 theirs /\
        (forall b, In b (main_chain peer) -> get_block (sy_node s') (b_hash b) = Some b) /\
        top (sy_node s') = top peer /\ sy_buf s' = [] /\
        srounds cfg genesis_addr team_key peer now (S k) s = s') /\
+    (* the answers of every round arrive in any order *)
+    (forall m s', (bound <= m)%nat -> prounds cfg genesis_addr team_key peer now m s s' ->
+       sy_node s' = apply_ext' n0 theirs /\
+       (forall b, In b (main_chain peer) -> get_block (sy_node s') (b_hash b) = Some b) /\
+       top (sy_node s') = top peer /\ sy_buf s' = []) /\
+    (* [sim] *)
     (forall fuel, (bound <= fuel)%nat ->
        top (sy_node (fst (sim cfg genesis_addr team_key fuel peer s [] now))) = top peer).
 Proof.
@@ -190,21 +197,26 @@ Proof.
     by (rewrite <- Hsplit; apply (main_chain_link gh); exact HCpeer).
   assert (Hinj : NoDup (map b_hash (shared ++ theirs))) by (rewrite <- Hsplit; apply (main_chain_nodup gh); exact HCpeer).
   destruct (sync_fork_rounds cfg genesis_addr team_key peer n0 shared theirs Hlen Hshared_ne Hat Hheight Hlink Hinj Hnz Hshared Hnew
-              Hacc Hheavy Hdone Hbound Hpbd Hreach s H1 H2 H3 H4) as (bound & Hb).
-  exists bound. intros now Hpre.
-  assert (Hk : forall k, (bound <= k)%nat ->
+              Hacc Hheavy Hdone Hbound Hpbd Hreach s H1 H2 H3 H4) as (bound1 & Hb1).
+  destruct (sync_fork_prounds cfg genesis_addr team_key peer n0 shared theirs Hlen Hshared_ne Hat Hheight Hlink Hinj Hnz Hshared Hnew
+              Hacc Hheavy Hdone Hbound Hpbd Hreach s H1 H2 H3 H4) as (bound2 & Hb2).
+  exists (Nat.max bound1 bound2). intros now Hpre.
+  assert (Hstore : forall b, In b (main_chain peer) -> get_block (apply_ext' n0 theirs) (b_hash b) = Some b).
+  { intros b Hin. rewrite Hsplit in Hin.
+    apply (final_store cfg genesis_addr team_key peer n0 shared theirs Hlen Hshared_ne Hat Hheight Hlink Hinj Hnz Hshared Hnew
+             Hacc Hheavy Hdone Hbound Hpbd Hreach b Hin). }
+  assert (Hk : forall k, (Nat.max bound1 bound2 <= k)%nat ->
        let s' := srounds cfg genesis_addr team_key peer now k s in
        sy_node s' = apply_ext' n0 theirs /\
        (forall b, In b (main_chain peer) -> get_block (sy_node s') (b_hash b) = Some b) /\
        top (sy_node s') = top peer /\ sy_buf s' = [] /\
        srounds cfg genesis_addr team_key peer now (S k) s = s').
-  { intros k Hk. cbn zeta. destruct (Hb now Hpre k Hk) as (E1 & E2 & E3). cbn zeta in *.
-    split; [exact E1|]. split; [|split; [rewrite E1; exact Htop|split; [exact E2|exact E3]]].
-    intros b Hin. rewrite E1. rewrite Hsplit in Hin.
-    apply (final_store cfg genesis_addr team_key peer n0 shared theirs Hlen Hshared_ne Hat Hheight Hlink Hinj Hnz Hshared Hnew
-             Hacc Hheavy Hdone Hbound Hpbd Hreach b Hin). }
-  split; [exact Hk|].
-  intros fuel Hf. apply sim_srounds. destruct (Hk fuel Hf) as (_ & _ & Ht & _). exact Ht.
+  { intros k Hk. cbn zeta. destruct (Hb1 now Hpre k ltac:(lia)) as (E1 & E2 & E3). cbn zeta in *.
+    split; [exact E1|]. split; [rewrite E1; exact Hstore|split; [rewrite E1; exact Htop|split; [exact E2|exact E3]]]. }
+  split; [exact Hk|]. split.
+  - intros m s' Hm Hr. destruct (Hb2 now Hpre m s' ltac:(lia) Hr) as (E1 & E2).
+    split; [exact E1|]. split; [rewrite E1; exact Hstore|split; [rewrite E1; exact Htop|exact E2]].
+  - intros fuel Hf. apply sim_srounds. destruct (Hk fuel Hf) as (_ & _ & Ht & _). exact Ht.
 Qed.
 
 End Main.
